@@ -197,11 +197,15 @@ void sticky(Obs& o, const Manifold& e, Err st0) {
 void consume(Obs& o, const Manifold& m, size_t numTri) {
   Manifold cur = m;
   int steps = o.r.range(1, 2);
+  // RefineToLength(0.7) etc. of a solid whose size is 1e300 is a valid request
+  // that is merely unsatisfiable (resource bound), not malformed input.
+  bool refinable = false;
+  guarded(o.c, o.label, o.detail, [&] { Box b = m.BoundingBox(); double sc = b.Scale(); refinable = std::isfinite(sc) && sc < 1e3 && sc > 1e-3; });
   for (int s = 0; s < steps; s++) {
     int k = (int)o.r.below(kNumOps);
     if (k >= 14 && k <= 17 && numTri > 16) k = 0;        // Minkowski scales with the face product
     if (k == 43 && numTri > 16) k = 1;
-    if ((k == 28 || k == 29 || k == 30 || k == 38) && numTri > 600) k = 2;
+    if ((k == 28 || k == 29 || k == 30 || k == 38) && (numTri > 600 || !refinable)) k = 2;
     std::string name;
     std::vector<Manifold> outs;
     if (!guarded(o.c, "consume:" + o.head() + "/" + kOpNames[k], o.detail, [&] {
@@ -413,15 +417,15 @@ bool mutateMesh(M& m, const std::string& kind, vh::Rng& r, std::vector<Smoothnes
   if (K("tv-idx-alias")) { size_t i = r.below(ntv); m.triVerts[i] = sizeof(I) == 8 ? (I)(((uint64_t)1 << 32) + (uint64_t)m.triVerts[i]) : (I)((uint32_t)1 << 31); return true; }
   if (K("tv-idx-rand-valid")) { int k = r.range(1, 3); for (int i = 0; i < k; i++) m.triVerts[r.below(ntv)] = (I)r.below(nv); return true; }
   if (K("tv-flip-tri")) { size_t t = r.below(nt); std::swap(m.triVerts[3 * t], m.triVerts[3 * t + 1]); return true; }
-  if (K("tv-dup-tri")) { size_t t = r.below(nt); for (int i = 0; i < 3; i++) m.triVerts.push_back(m.triVerts[3 * t + i]); if (!m.faceID.empty()) m.faceID.push_back(m.faceID[t]); if (ensureRuns()) m.runIndex.back() += 3; if (!m.halfedgeTangent.empty()) m.halfedgeTangent.resize(m.halfedgeTangent.size() + 12, (P)0.1); return true; }
+  if (K("tv-dup-tri")) { size_t t = r.below(nt); for (int i = 0; i < 3; i++) m.triVerts.push_back(m.triVerts[3 * t + i]); if (t < m.faceID.size()) { I f = m.faceID[t]; m.faceID.push_back(f); } if (ensureRuns()) m.runIndex.back() += 3; if (!m.halfedgeTangent.empty()) m.halfedgeTangent.resize(m.halfedgeTangent.size() + 12, (P)0.1); return true; }
   if (K("tv-degenerate")) { size_t t = r.below(nt); m.triVerts[3 * t + 1] = m.triVerts[3 * t]; if (r.chance(0.3)) for (size_t i = 0; i < ntv; i++) m.triVerts[i] = m.triVerts[3 * (i / 3)]; return true; }
   // ---- merge vectors
-  auto ensureMerge = [&]() { if (m.mergeFromVert.empty()) { m.mergeFromVert.push_back((I)r.below(nv)); m.mergeToVert.push_back((I)r.below(nv)); } };
+  auto ensureMerge = [&]() { if (m.mergeFromVert.empty() || m.mergeToVert.empty()) { m.mergeFromVert.clear(); m.mergeToVert.clear(); m.mergeFromVert.push_back((I)r.below(nv)); m.mergeToVert.push_back((I)r.below(nv)); } };
   if (K("merge-len-from")) { ensureMerge(); m.mergeFromVert.push_back((I)r.below(nv)); return true; }
   if (K("merge-len-to")) { ensureMerge(); if (r.chance(0.5)) m.mergeToVert.push_back((I)r.below(nv)); else m.mergeToVert.clear(); return true; }
   if (K("merge-oob-from")) { ensureMerge(); m.mergeFromVert[r.below(m.mergeFromVert.size())] = (I)(nv + r.below(3)); return true; }
   if (K("merge-oob-to")) { ensureMerge(); m.mergeToVert[r.below(m.mergeToVert.size())] = (I)(nv + r.below(3)); return true; }
-  if (K("merge-max")) { ensureMerge(); (r.chance(0.5) ? m.mergeFromVert : m.mergeToVert)[r.below(m.mergeFromVert.size())] = r.chance(0.5) ? allOnes<I>() : (I)((uint64_t)1 << 31); return true; }
+  if (K("merge-max")) { ensureMerge(); (r.chance(0.5) ? m.mergeFromVert : m.mergeToVert)[r.below(std::min(m.mergeFromVert.size(), m.mergeToVert.size()))] = r.chance(0.5) ? allOnes<I>() : (I)((uint64_t)1 << 31); return true; }
   if (K("merge-cycle")) { I a = (I)r.below(nv), b = (I)r.below(nv), d = (I)r.below(nv); for (auto pr : {std::make_pair(a, b), std::make_pair(b, d), std::make_pair(d, a), std::make_pair(a, a)}) { m.mergeFromVert.push_back(pr.first); m.mergeToVert.push_back(pr.second); } return true; }
   if (K("merge-all-to-one")) { m.mergeFromVert.clear(); m.mergeToVert.clear(); for (size_t i = 1; i < nv; i++) { m.mergeFromVert.push_back((I)i); m.mergeToVert.push_back(0); } return true; }
   if (K("merge-rand-valid")) { int k = r.range(1, 4); for (int i = 0; i < k; i++) { m.mergeFromVert.push_back((I)r.below(nv)); m.mergeToVert.push_back((I)r.below(nv)); } return true; }
@@ -446,7 +450,7 @@ bool mutateMesh(M& m, const std::string& kind, vh::Rng& r, std::vector<Smoothnes
   if (K("ids-unsorted")) { if (nrun < 2) return false; std::reverse(m.runOriginalID.begin(), m.runOriginalID.end()); return true; }
   auto ensureRT = [&]() { if (m.runTransform.empty() && nrun) { for (size_t i = 0; i < nrun; i++) for (int j = 0; j < 12; j++) m.runTransform.push_back((P)((j % 4 == j / 3 && j < 9) ? 1 : 0)); for (size_t i = 0; i < nrun; i++) { P* t = &m.runTransform[12 * i]; t[0] = 1; t[1] = 0; t[2] = 0; t[3] = 0; t[4] = 1; t[5] = 0; t[6] = 0; t[7] = 0; t[8] = 1; t[9] = 0; t[10] = 0; t[11] = 0; } } return !m.runTransform.empty(); };
   if (K("rt-len+1")) { if (!ensureRT()) return false; m.runTransform.push_back((P)1); return true; }
-  if (K("rt-len-12")) { if (!ensureRT()) return false; m.runTransform.resize(m.runTransform.size() - (r.chance(0.5) ? 12 : 1)); return true; }
+  if (K("rt-len-12")) { if (!ensureRT() || m.runTransform.size() < 12) return false; m.runTransform.resize(m.runTransform.size() - (r.chance(0.5) ? 12 : 1)); return true; }
   if (K("rt-empty")) { if (m.runTransform.empty()) return false; m.runTransform.clear(); return true; }
   if (K("rt-nonfinite")) { if (!ensureRT()) return false; m.runTransform[r.below(m.runTransform.size())] = r.chance(0.5) ? std::numeric_limits<P>::quiet_NaN() : std::numeric_limits<P>::infinity(); return true; }
   if (K("rt-zero")) { if (!ensureRT()) return false; std::fill(m.runTransform.begin(), m.runTransform.end(), (P)0); return true; }
@@ -462,10 +466,10 @@ bool mutateMesh(M& m, const std::string& kind, vh::Rng& r, std::vector<Smoothnes
   if (K("fid-len+1")) { if (m.faceID.empty()) m.faceID.assign(nt, 0); m.faceID.push_back(0); return true; }
   if (K("fid-len-1")) { if (m.faceID.empty()) m.faceID.assign(nt, 0); m.faceID.pop_back(); return true; }
   if (K("fid-empty")) { if (m.faceID.empty()) return false; m.faceID.clear(); return true; }
-  if (K("fid-max")) { if (m.faceID.empty()) m.faceID.assign(nt, 0); m.faceID[r.below(nt)] = r.chance(0.5) ? allOnes<I>() : (I)((uint64_t)1 << 31); return true; }
+  if (K("fid-max")) { if (m.faceID.empty()) m.faceID.assign(nt, 0); m.faceID[r.below(m.faceID.size())] = r.chance(0.5) ? allOnes<I>() : (I)((uint64_t)1 << 31); return true; }
   if (K("fid-rand")) { if (m.faceID.empty()) m.faceID.assign(nt, 0); for (auto& f : m.faceID) f = (I)r.next(); return true; }
   // ---- tangents
-  auto ensureTan = [&]() { if (m.halfedgeTangent.empty()) { m.halfedgeTangent.resize(4 * ntv); for (auto& x : m.halfedgeTangent) x = (P)r.uni(-0.3, 0.3); } };
+  auto ensureTan = [&]() { if (m.halfedgeTangent.size() < 8) { m.halfedgeTangent.resize(4 * ntv); for (auto& x : m.halfedgeTangent) x = (P)r.uni(-0.3, 0.3); } };
   if (K("tan-len+1")) { ensureTan(); m.halfedgeTangent.push_back((P)0.1); return true; }
   if (K("tan-len-4")) { ensureTan(); m.halfedgeTangent.resize(m.halfedgeTangent.size() - (r.chance(0.5) ? 4 : 1)); return true; }
   if (K("tan-half")) { ensureTan(); m.halfedgeTangent.resize(m.halfedgeTangent.size() / 2); return true; }
@@ -1139,9 +1143,11 @@ void vh_init(vh::Ctx& c) {
     if (ch == ',' || ch == ';') { if (!cur.empty()) g_hot.insert(cur); cur.clear(); }
     else cur += ch;
   }
-  buildBases(c);
-  buildObjBases(c);
-  buildArgOps();
+  // only what this stage needs: a crashing mutant costs a process restart
+  const std::string mode = c.param("mode", "mesh");
+  if (mode == "mesh") buildBases(c);
+  else if (mode == "poly") buildObjBases(c);
+  else buildArgOps();
   (void)partner();
 }
 
